@@ -146,6 +146,19 @@ def check_c18(run):
         sid += 1
         sessions.append({"id": sid, "kind": "conc", "target": "engine", "gated": rng.random() < 0.7,
                          "blocks": [bl], "nest": rng.choice(["plain", "if", "for"])})
+    # churn: many ungated bodies in which children that look locals up (methods of an object held in a local) run beside
+    # children that assign locals, at full speed
+    for i in range(300 if quick else 5000):
+        blocks = []
+        n = 0
+        for b in range(3):
+            bl = []
+            for c in range(8):
+                n += 1
+                bl.append({"id": "c%d" % n, "kind": rng.choice(["asgL", "asgML", "methL", "methL", "func"]), "fails": False, "val": 100 * (b + 1) + n})
+            blocks.append(bl)
+        sid += 1
+        sessions.append({"id": sid, "kind": "conc", "target": "engine", "gated": False, "blocks": blocks, "nest": rng.choice(["plain", "if", "for"])})
     # the same body evaluated by 2-3 pool requests at the same moment (the instances share the compiled rule); a child
     # may fail in one request only, so that a failure and a success of the same statement overlap
     for i in range(120 if quick else 2500):
